@@ -193,7 +193,7 @@ def run(ctx):
     ctx.build_bins(worker=False)
     rng = ctx.rng
     nfiles = 300 if ctx.tier == "quick" else 6000
-    ctx.rule = ("each (generated log file, source format, output mode, filter) run of the real aa-log binary is one case: every input record "
+    ctx.rule = ("each (generated log file, source format, output mode, filter) run of the real aa-log binary is one case (journald files are read once with -s -f FILE and once through a stub `journalctl` command, same output required): every input record "
                 "carries a unique tag that survives all output modes, so the reported events are matched to input records: none missing, none "
                 "twice, none unexpected, input order kept (raw and default modes), exit status 0, same bytes on a second run. Files mix "
                 "records of every class with STATUS records, foreign/garbled/blank lines, repeats up to timestamp and pid, ALLOWED/DENIED "
@@ -201,6 +201,10 @@ def run(ctx):
                 "Non-trivial = runs with a filter, a trigger, a repeat or a twin")
     d = ctx.mkdir("logs")
     aalog = os.path.join(ctx.bins, "aa-log")
+    stubdir = ctx.mkdir("stub-bin")
+    with open(os.path.join(stubdir, "journalctl"), "w") as f:
+        f.write('#!/bin/sh\nexec cat "$VERIF_JCTL_FILE"\n')
+    os.chmod(os.path.join(stubdir, "journalctl"), 0o755)
     jobs = []
     for fid in range(nfiles):
         journald = rng.random() < 0.3
@@ -229,9 +233,15 @@ def run(ctx):
         if filt is not None:
             cmd.append(filt)
         res = []
-        for _ in range(2):
+        for k in range(2):
+            run_cmd, run_env = cmd, None
+            if journald and k == 1:
+                # second run of a journald file: the same JSON lines arrive from the `journalctl` command (a stub on PATH that
+                # prints the file) instead of -f FILE, the tool's other way of reading the journal
+                run_cmd = [c for c in cmd if c not in ("-f", path)]
+                run_env = dict(os.environ, PATH=stubdir + os.pathsep + os.environ.get("PATH", ""), VERIF_JCTL_FILE=path)
             try:
-                p = subprocess.run(cmd, stdout=subprocess.PIPE, stderr=subprocess.PIPE, timeout=120)
+                p = subprocess.run(run_cmd, stdout=subprocess.PIPE, stderr=subprocess.PIPE, timeout=120, env=run_env)
                 res.append((p.returncode, p.stdout, p.stderr))
             except subprocess.TimeoutExpired:
                 res.append((None, b"", b"timeout"))
@@ -260,7 +270,8 @@ def run(ctx):
             viol("C14/exit-status/%s%s" % (fmt, cls), "aa-log exited %s: %s" % (rc, (out + err)[-300:].decode("utf-8", "replace")), dict(case, data=_head(path)))
             continue
         if out != out2 or rc2 != rc:
-            viol("C14/not-deterministic/%s/%s" % (fmt, mode), "two runs on the same file print different output", dict(case, data=_head(path)))
+            viol("C14/not-deterministic/%s/%s" % (fmt, mode), "two runs on the same input print different output%s" % (
+                " (journald lines read with -f FILE, then from the journalctl command)" if journald else ""), dict(case, data=_head(path)))
             continue
         text = RE_ANSI.sub("", out.decode("utf-8", "replace"))
         exp = expected_tags(lines, filt)
